@@ -33,6 +33,8 @@ def gen_case(rng, idx, tier):
     # the last group of rows is added after a first solve (and after a first round of dual()
     # reads); the duals are judged after the second solve
     spec['two_stage'] = bool(len(spec['lin']) >= 2 and rng.random() < 0.3)
+    # bound objects on reversed / permuted selections of a block (see detmodel._build)
+    spec['perm_bounds'] = int(rng.integers(1, 1 << 30)) if rng.random() < 0.5 else None
     return spec
 
 
